@@ -244,6 +244,13 @@ let batrun_case id main files stddir =
        | _ -> Printf.printf "batrun %s cmd=noscript %s\n" id spec)
   | _ -> Printf.printf "batrun %s cmd=noparse\n" id
 
+(* a given Batch script (the implementation's) under the cmd.exe model *)
+let cmdrun_case id script =
+  match CmdModel.cmd_run cmd_fuel (bytes_of_hex script) with
+  | CmdModel.CmdRan (out, status) -> Printf.printf "cmdrun %s cmd=ran out=%s status=%s\n" id (hex_of_bytes out) (z_to_string status)
+  | CmdModel.CmdFuel -> Printf.printf "cmdrun %s cmd=fuel\n" id
+  | CmdModel.CmdUnsupported -> Printf.printf "cmdrun %s cmd=unsupported\n" id
+
 (* ---- C10: the reference semantics of a program and of its renaming ---- *)
 let ren_case id main filesa stddir filesb =
   let run files = (match FrontModel.parse_main (env_of files stddir) (bytes_of_hex main) with
@@ -342,6 +349,7 @@ let () =
       | ["run"; id; main; files; stddir] -> run_case id main files stddir
       | "strlib" :: id :: fname :: fields -> strlib_case id fname fields
       | ["batrun"; id; main; files; stddir] -> batrun_case id main files stddir
+      | ["cmdrun"; id; script] -> cmdrun_case id script
       | ["ren"; id; main; filesa; stddir; filesb] -> ren_case id main filesa stddir filesb
       | ["dq"; id; env; word] -> dq_case id env word
       | "fsh" :: id :: _ :: _ :: _ :: _ :: prefiles :: ops :: _ -> fsh_case id prefiles ops
